@@ -36,7 +36,10 @@ def apply(mut, root, prop=''):
 
 
 def run_one(mut, prop, examples, root, seed):
-    dst = apply(mut, root, prop)
+    try:
+        dst = apply(mut, root, prop)
+    except SystemExit as e:       # the mutated code has changed since the mutant was written
+        return {'id': mut['id'], 'prop': prop, 'rc': 3, 'wall': 0.0, 'what': str(e)[:160], 'note': mut.get('note', '')}
     t0 = time.time()
     cmd = [os.path.join(VERIF, 'check'), prop, '--no-evidence', '--src', os.path.join(dst, 'src')]
     if examples:
@@ -74,7 +77,7 @@ def main():
     with ThreadPoolExecutor(a.jobs) as ex:
         res = list(ex.map(lambda j: run_one(j[0], j[1], a.examples, a.root, a.seed), jobs))
     for r in res:
-        verdict = {0: 'SURVIVED', 1: 'killed', 2: 'HARNESS-ERROR'}.get(r['rc'], str(r['rc']))
+        verdict = {0: 'SURVIVED', 1: 'killed', 2: 'HARNESS-ERROR', 3: 'PATTERN-GONE'}.get(r['rc'], str(r['rc']))
         print(f"{r['prop']} {r['id']:<28} {verdict:<13} {r['wall']:>6}s  {r['what']}")
     if a.json:
         json.dump(res, open(a.json, 'w'), indent=1)
